@@ -1,17 +1,15 @@
 --------------------------- MODULE MC_WeaverShape ---------------------------
-(* Exhaustive exploration of the shape abstraction: all programs of up to MaxOps operations from a 6-point series
-   handed in as arrays or as lists.  `act` (the operation that produced the state) and the program length are hidden
-   from the fingerprint by the VIEW, so TLC explores distinct abstract states; every transition TLC generates is
+(* Exhaustive exploration of the shape abstraction: all programs (of any length; lengths are capped at MaxLen, so the
+   abstract state space is finite and every state is reached within a dozen operations) from a 6-point series handed in
+   as arrays or as lists.  `act` (the operation that produced the state) is hidden from the fingerprint by the VIEW, so TLC explores distinct abstract states; every transition TLC generates is
    printed as one JSON line {from, act, to} (ACTION_CONSTRAINT), i.e. the whole labelled state graph. *)
 EXTENDS WeaverShape, TLC, Json
-CONSTANTS MaxOps, MaxLen
-VARIABLES s, act, len
+CONSTANT MaxLen
+VARIABLES s, act
 
 Init == /\ \E arr \in BOOLEAN : s = NewShape(6, arr)
-        /\ act = [k |-> "construct"] /\ len = 0
-Next == /\ len < MaxOps
-        /\ \E a \in Acts : Enabled(s, a, MaxLen) /\ s' = Do(s, a) /\ act' = a
-        /\ len' = len + 1
+        /\ act = [k |-> "construct"]
+Next == \E a \in Acts : Enabled(s, a, MaxLen) /\ s' = Do(s, a) /\ act' = a
 View == s
 EmitEdge == PrintT(ToJson([from |-> s, act |-> act', to |-> s']))
 P09_CallerIntact == CallerIntact(s)
